@@ -92,6 +92,14 @@ func (s *onceSchedule) Next(t time.Time) time.Time {
 	return t.Add(1000 * time.Hour)
 }
 
+// the worker only logs a failing call: record what it logs as an error
+type errLogger struct {
+	logging.Logger
+	errs *[]string
+}
+
+func (l errLogger) Errorf(f string, a ...any) { *l.errs = append(*l.errs, fmt.Sprintf(f, a...)) }
+
 type bBlock struct {
 	ID, Prev, From, To int64
 	Hash               []byte
@@ -149,6 +157,7 @@ func runBlocksScript(evs []bEv, gen func(step func(bEv) bool)) *blocksRun {
 	}
 	store, _, err := st.Driver.OpenLedger(ctx, "l1")
 	must(err)
+	st.PG.LoopLimit = 200 // create_blocks needs at most (#committed logs + 1) iterations; a procedure that never stops is cut off here
 	type openTx struct {
 		store *ledgerstore.Store
 		id    int64
@@ -192,7 +201,7 @@ func runBlocksScript(evs []bEv, gen func(step func(bEv) bool)) *blocksRun {
 			delete(open, e.W)
 		case "run":
 			sch := &onceSchedule{done: make(chan struct{})}
-			runner := storage.NewAsyncBlockRunner(logging.FromContext(ctx), st.Bun, storage.AsyncBlockRunnerConfig{MaxBlockSize: e.Size, Schedule: sch})
+			runner := storage.NewAsyncBlockRunner(errLogger{logging.FromContext(ctx), &br.RunErr}, st.Bun, storage.AsyncBlockRunnerConfig{MaxBlockSize: e.Size, Schedule: sch})
 			go func() { _ = runner.Run(ctx) }()
 			select {
 			case <-sch.done:
